@@ -509,9 +509,37 @@ func (m *mutScene) checkC03(k int) {
 		}
 	}
 	vAssert(flags, "C03: genes numbered like a recorded split carry that split's recurrence flags")
-	// the same structural innovation arising again in the same generation gets the same numbers:
-	// a second genome with the same structure performing the same mutation reuses the record
+	// the same structural innovation arising again in the same generation gets the same numbers: every gene this
+	// step created is described by an entry of the generation's record (re-used or just stored), so that the next
+	// genome performing the same mutation finds it - an innovation that is performed but not recorded would be
+	// numbered afresh the second time
 	_ = k
+	recorded := true
+	for _, gn := range g.Genes {
+		if isOld(gn, m.oldGenes) {
+			continue
+		}
+		l := gn.Link
+		covered := false
+		for _, r := range recs {
+			if r.innovationType == newLinkInnType {
+				covered = vOr(covered, vAnd(vAnd(gn.InnovationNum == r.InnovationNum, l.IsRecurrent == r.IsRecurrent), vAnd(l.InNode.Id == r.InNodeId, l.OutNode.Id == r.OutNodeId)))
+				continue
+			}
+			// a split: the entry names the split gene (by number and endpoints), which this genome carries
+			split := false
+			for _, og := range g.Genes {
+				if isOld(og, m.oldGenes) {
+					split = vOr(split, vAnd(og.InnovationNum == r.OldInnovNum, vAnd(og.Link.InNode.Id == r.InNodeId, og.Link.OutNode.Id == r.OutNodeId)))
+				}
+			}
+			first := vAnd(gn.InnovationNum == r.InnovationNum, vAnd(l.InNode.Id == r.InNodeId, l.OutNode.Id == r.NewNodeId))
+			second := vAnd(gn.InnovationNum == r.InnovationNum2, vAnd(l.InNode.Id == r.NewNodeId, l.OutNode.Id == r.OutNodeId))
+			covered = vOr(covered, vAnd(split, vOr(first, second)))
+		}
+		recorded = vAnd(recorded, covered)
+	}
+	vAssert(recorded, "C03: every structural innovation performed in a generation is in that generation's record (so that the same innovation arising again receives the same numbers)")
 }
 
 func vcMut(prop int, k int, c tmplCfg, record int) {
